@@ -78,6 +78,31 @@ ensures
     values@.len() > 0 ==> same_but_rows(*final(self), *old(self)) && rows_of(*final(self)) == rows_of(*old(self)).push(values),
     values@.len() == 0 ==> *final(self) == *old(self),
     rect(*final(self)),""")
+    # values_from_panic: every row of the iterator goes through values_panic (i.e. is checked), in order
+    u.fn(F, "impl InsertStatement", "values_from_panic", props=P,
+         rules=[make_r_sub("R-collect", r"values_from_panic<I>\(&mut self, values_iter: impl IntoIterator<Item = I>\)", "values_from_panic(&mut self, values_iter: Vec<Vec<SimpleExpr>>)"),
+                make_r_sub("R-collect", r"where\s+I: IntoIterator<Item = SimpleExpr>,", ""),
+                # R-fold (by-value form): `c.into_iter().for_each(|x| { BODY });` is `for x in c { BODY }`
+                make_r_sub("R-fold", r"values_iter\.into_iter\(\)\.for_each\(\|values\| \{\s*self\.values_panic\(values\);\s*\}\);", "for values in itv: values_iter { self.values_panic(values); }"),
+                r_retself],
+         spec="""requires rect(*old(self)), forall|i: int| 0 <= i < values_iter@.len() ==> (#[trigger] values_iter@[i])@.len() == old(self).columns@.len(),   // panics otherwise
+ensures
+    // every row is appended, in call order (rows of a column-less INSERT are empty and add nothing)
+    old(self).columns@.len() > 0 ==> rows_of(*final(self)) == rows_of(*old(self)) + values_iter@,
+    old(self).columns@.len() == 0 ==> *final(self) == *old(self),
+    (values_iter@.len() > 0 && old(self).columns@.len() > 0) ==> same_but_rows(*final(self), *old(self)),
+    values_iter@.len() == 0 ==> *final(self) == *old(self),
+    rect(*final(self)),""",
+         loops=["""invariant
+    itv.index@ <= values_iter@.len(), rect(*self), self.columns == s0.columns,
+    forall|i: int| 0 <= i < values_iter@.len() ==> (#[trigger] values_iter@[i])@.len() == s0.columns@.len(),
+    s0.columns@.len() > 0 ==> rows_of(*self) == rows_of(s0) + values_iter@.subrange(0, itv.index@ as int),
+    s0.columns@.len() == 0 ==> *self == s0,
+    (itv.index@ > 0 && s0.columns@.len() > 0) ==> same_but_rows(*self, s0),
+    itv.index@ == 0 ==> *self == s0,"""],
+         proofs={"body-start": "let ghost s0 = *self;\nproof { assert(rows_of(s0) + values_iter@.subrange(0, 0) =~= rows_of(s0)); }",
+                 "loop1-end": "proof { assert(values_iter@.subrange(0, itv.index@ + 1) =~= values_iter@.subrange(0, itv.index@ as int).push(values)); assert(rows_of(s0) + values_iter@.subrange(0, itv.index@ as int).push(values) =~= (rows_of(s0) + values_iter@.subrange(0, itv.index@ as int)).push(values)); }",
+                 "body-end": "proof { assert(values_iter@.subrange(0, values_iter@.len() as int) =~= values_iter@); }"})
     u.fn(F, "impl InsertStatement", "select_from", ret="r", props=P,
          rules=[make_r_sub("R-into", r"select_from<S>\(&mut self, select: S\)", "select_from(&mut self, select: SelectStatement)"),
                 make_r_sub("R-into", r"where\s+S: Into<SelectStatement>,", ""), make_r_sub("R-into", r"select\.into\(\)", "select"),
